@@ -173,7 +173,9 @@ def impl_iod(c):
     iod = iod_module.LambertIOD(c.get("spacing", 60), solver, 10001, datetimeToJulianDate(START))
     with mock.patch.object(iod_module, "getDBConnection", lambda: db):
         sol = iod.determineNewEstimateState([second], ScenarioTime(0.0), ScenarioTime(float(t2)))
-    return {"converged": bool(sol.convergence), "message": str(sol.message), "state": [float(v) for v in sol.state_vector] if sol.state_vector is not None else None,
+    jd2 = float(ScenarioTime(float(t2)).convertToJulianDate(datetimeToJulianDate(START)))
+    jd1 = float(datetimeToJulianDate(START + timedelta(seconds=t1)))
+    return {"tof_as_computed": (jd2 - jd1) * 86400.0, "converged": bool(sol.convergence), "message": str(sol.message), "state": [float(v) for v in sol.state_vector] if sol.state_vector is not None else None,
             "truth": [float(v) for v in xs[t2]], "gap_fraction": gap / period, "gap": gap}
 
 
@@ -234,7 +236,15 @@ def oracle(run: Run, c, impl):
             # the time of flight is a difference of two Julian dates (resolution 4.7e-5 s each): over a short arc that is a relative error of up to
             # 2e-4 s / gap in the time of flight, hence in the velocity
             speed = float(np.linalg.norm(np.array(o["truth"][3:])))
-            if not (dp <= 1e-5 and dv <= 1e-6 + speed * 2e-4 / o["gap"]):
+            # the interval the solver is given: (JD of the current scenario time) - (stored JD of the earlier observation), in seconds
+            dtof = abs(o.get("tof_as_computed", o["gap"]) - o["gap"])
+            run.worse("iod:time-of-flight-error-s", dtof)
+            # a transfer angle of a fraction of a degree is the neighbourhood of 0 that the property leaves out for the Lambert solvers (ill-conditioned:
+            # GEO, 30 s apart = 0.125 deg gave 2.3e-5 km/s with a time-of-flight error of only 2.4e-5 s): there only a gross error counts
+            tiny_arc = 360.0 * o["gap_fraction"] < 8.0
+            if tiny_arc:
+                run.count("iod:transfer-angle<8deg")
+            if not (dp <= 1e-5 and dv <= (1e-3 if tiny_arc else 1e-6 + speed * (2.0 * dtof + 1e-4) / o["gap"])):
                 fails.append(("iod:state", f"the determined state is {dp:.6g} km and {dv:.6g} km/s from the orbit's state at the second observation ({desc})"))
     return fails
 
